@@ -249,7 +249,8 @@ def _splice_struct(src_text, s, counts):
             if cur.strip():
                 parts.append(cur)
             parts = ["pub " + re.sub(r"^pub(\([^)]*\))?\s+", "", x.strip()) for x in parts]
-            name = re.search(r"struct\s+(\w+)", st).group(1)
+            # keep the generic parameter list of the tuple struct (`struct Name<P = X>(...)`)
+            name = re.search(r"struct\s+(\w+\s*(?:<[^(]*>)?)", st).group(1).strip()
             return s.get("attrs", "") + "pub struct %s(%s);\n" % (name, ", ".join(parts))
     fields = rsx.struct_fields(st)
     keep = s["keep"]
@@ -422,9 +423,10 @@ def run(ctx, obls):
                 if o.witness:
                     import exec_engine
                     cache = ctx.setdefault("witness_cache", {})
-                    if o.witness not in cache:
-                        cache[o.witness] = exec_engine.witness_search(ctx, o)
-                    w = cache[o.witness]
+                    wkey = o.witness if isinstance(o.witness, str) else tuple(o.witness)
+                    if wkey not in cache:
+                        cache[wkey] = exec_engine.witness_search(ctx, o)
+                    w = cache[wkey]
                 if w:
                     oc["witness"] = w
                     oc["input_found"] = True
